@@ -1,4 +1,6 @@
-from lib import std_flow
+import os
+
+from lib import std_flow, VERIF
 
 
 def key(d):
@@ -16,4 +18,5 @@ def run(ctx):
         "measured by the harness after every commit (empty on a correct tree)",
         "Coq model C25/Model.v is hand-written in the shape of stdlib/account.go; tied by this run's correspondence",
     ]
-    std_flow(ctx, "c25", coq_targets=["C25/Cases"], mismatch_key=key)
+    std_flow(ctx, "c25", args=["-corpus", os.path.join(VERIF, "corpus", "C25")],
+             coq_targets=["C25/Cases"], mismatch_key=key)
